@@ -40,6 +40,7 @@ func init() {
 			{ID: "C07.R19", Text: "a copy leaves the minimum only because the cluster map does not list it: the absent mark is written only by the record's setter, which is called only from the cluster-map lookup (no error path, no pruning of the active copy)", Run: absentMarkWriters},
 			{ID: "C07.R20", Text: "once the threshold covers a waiting event that event is delivered: no lossy wake-up (same rule as C03.R16) and the observer that holds the threshold survives a re-open (same rule as C03.R15)", Run: func(c *Ctx, id string) { lossySignals(c, id); observerMapWriters(c, id) }},
 			{ID: "C07.R21", Text: "every persisted-sequence report reaches the observer it is for: no layer between the mitigation and the dispatcher that is not a proven pass-through (same rule as C20.R20)", Run: noNewLayers},
+			{ID: "C07.R22", Text: "the only wait in front of an event is the persistence wait: the gate receives from no channel and takes no lock (same rule as C20.R23)", Run: gateWaitsOnlyForPersistence},
 			{ID: "C07.R6", Text: "close releases without delivering: observer.Close sets closed; listener called ⇔ ¬closed", Run: c07r6},
 		},
 	})
